@@ -294,3 +294,81 @@ package unit
 //@ func Fact
 //@ note expect=pass
 //@ ensures[pos] (>= result 1)
+//
+//@ func MustPos
+//@ note expect=pass
+//@ ensures[pos] (>= result 0)
+//
+//@ func MustPosNoPanic
+//@ note expect=fail:safe
+//@ nopanic
+//
+//@ func Area
+//@ note expect=pass
+//@ ensures[sq] (= result (* n n))
+//
+//@ func Named
+//@ note expect=pass
+//@ ensures[named] (and (= r (+ x 1)) (ok err))
+//
+//@ func ArrayCopy
+//@ note expect=pass
+//@ ensures[val] (= result 10)
+//
+//@ func Reslice
+//@ note expect=pass
+//@ nopanic
+//@ ensures[shift] (= result 0)
+//
+//@ func RoundTrip
+//@ note expect=pass
+//@ ensures[rt] (= result s)
+//
+//@ func ClosureLoop
+//@ note expect=fail:post.stale
+//@ ensures[stale] (= result 0)
+//
+//@ func FieldPtr
+//@ note expect=pass
+//@ ensures[inc] (= result 2)
+//
+//@ func NilGuard
+//@ note expect=pass
+//@ nopanic
+//
+//@ func Spawn
+//@ note expect=left
+//@ ensures[any] true
+//
+//@ func MapLoop
+//@ note expect=fail:post.stale
+//@ ensures[stale] (= result 0)
+//
+//@ func CallsSum
+//@ note expect=left
+//@ note sum has a loop and no contract: nothing is known of its result (a failure, never a proof of a wrong value)
+//@ ensures[three] (= result 4)
+//
+//@ func UConv
+//@ note expect=pass
+//@ ensures[wrap] (and (>= result 0) (=> (= x (- 1)) (= result 18446744073709551615)) (=> (>= x 0) (= result x)))
+//
+//@ func Embedded
+//@ note expect=pass
+//@ ensures[emb] (= result (+ o.inner.n o.m))
+//
+//@ func StrIndex
+//@ note expect=fail:safe
+//@ nopanic
+//
+//@ func SwitchFall
+//@ note expect=pass
+//@ ensures[fall] (= result (ite (= x 1) 3 (ite (= x 2) 2 9)))
+//
+//@ func ShortCircuit
+//@ note expect=pass
+//@ nopanic
+//
+//@ func CommaOk
+//@ note expect=left
+//@ ensures[never] (= result (- 1))
